@@ -94,7 +94,7 @@ class _bornmayer(_Potential_Function_Base):
     :param A: Potential parameter
     :param rho: Potential parameter :math:`\\rho`
     :return: Potential energy"""
-    return buck(r, A,rho,0.0)
+    return A * math.exp(-r/rho)
 
   def deriv(self, r, A, rho):
     """Return derivative of Born-Mayer potential form at `r`
@@ -103,7 +103,7 @@ class _bornmayer(_Potential_Function_Base):
     :param A: Potential parameter
     :param rho: Potential parameter :math:`\\rho`
     :return: Derivative at `r`"""
-    return buck.deriv(r, A, rho, 0.0)
+    return -(A * math.exp(-r/rho))/rho
 
   def deriv2(self, r, A, rho):
     """Return 2nd derivative of Born-Mayer potential form at `r`
@@ -112,7 +112,7 @@ class _bornmayer(_Potential_Function_Base):
     :param A: Potential parameter
     :param rho: Potential parameter :math:`\\rho`
     :return: 2nd derivative at `r`"""
-    return buck.deriv2(r, A, rho, 0.0)
+    return A*math.exp(-r/rho)/rho**2
 
 bornmayer = _bornmayer()
 
